@@ -1,6 +1,7 @@
 package pebbles
 
 import (
+	"encoding/json"
 	"sort"
 )
 
@@ -158,7 +159,28 @@ func VerifMutilatedAnswers() {
 	vMutCall = verifChoice("call", 2)
 	vMutElem = verifChoice("elem", 2)
 	vMutDropData = vMutation.kind == 7 && vMutation.depth == 2
-	code, out := f.vPost(q, nil, "")
+	// alone, or as the second operation of a batch whose first operation needs no service
+	var code int
+	var out map[string]interface{}
+	if verifChoice("batched", 2) == 1 {
+		body, _ := json.Marshal([]interface{}{map[string]interface{}{"query": `{ __schema { queryType { name } } }`}, map[string]interface{}{"query": q}})
+		rec := vPostRaw(f.gw, "application/json", body)
+		code = rec.code
+		var arr []interface{}
+		verifAssert(json.Unmarshal(rec.body, &arr) == nil && len(arr) == 2, "a batch of two is answered with an array of two")
+		if len(arr) == 2 {
+			first, _ := arr[0].(map[string]interface{})
+			verifAssert(first != nil && first["errors"] == nil && first["data"] != nil, "the other operation of the batch keeps its own answer")
+			out, _ = arr[1].(map[string]interface{})
+		}
+		verifAssert(out != nil, "every operation of a batch is answered with an object, at its own position")
+		if out == nil {
+			return
+		}
+		verifReach("mutilated answer inside a batch")
+	} else {
+		code, out = f.vPost(q, nil, "")
+	}
 	verifAssert(code == 200, "status 200 whatever the services answer")
 	_, hasData := out["data"]
 	_, hasErrs := out["errors"]
